@@ -161,9 +161,10 @@ def classify(scn, iout):
     if any(o[0] != "ok" for o in outcomes):
         kinds = sorted({(o[0], o[1] if o[0] == "exc" else "") for o in outcomes if o[0] != "ok"})
         fid = None
-        if feat["dst_misaddressed"] and set(kinds) <= {("exc", "ValueError"), ("mismatch", "")}:
+        fixed = su.detect_variant()
+        if feat["dst_misaddressed"] and not fixed["DST"] and set(kinds) <= {("exc", "ValueError"), ("mismatch", "")}:
             fid = "C15-subgroup-dst-rank"
-        elif feat["bcast_root_shifted"] and set(kinds) <= {("exc", "TypeError"), ("exc", "ValueError")}:
+        elif feat["bcast_root_shifted"] and not fixed["D9"] and set(kinds) <= {("exc", "TypeError"), ("exc", "ValueError")}:
             fid = "C15-subgroup-bcast-root"
         bad.append((fid, f"not every member returned: {kinds}"))
         return bad
@@ -188,7 +189,7 @@ def classify(scn, iout):
                 elif norm_obs(v) != w:
                     key = [m.tag, s.tag]
                     fid = None
-                    if key in feat["list_all_empty"] and v == T("dict"):
+                    if key in feat["list_all_empty"] and v == T("dict") and not su.detect_variant()["D12"]:
                         fid = "C15-list-all-empty"
                     elif key in feat["dict_unequal_keys"]:
                         fid = "C15-dict-unequal-keys"
@@ -290,6 +291,9 @@ def witness_stream(ctx):
                                                  "disagreement": d, "broken": f"tie:witness:{thm}"})
         bad = classify(scn, iout)
         s.count("still-fails" if bad else "no-longer-fails")
+        if not bad:
+            ctx.notes.append(f"stale finding {fid}: the witness of {thm} no longer fails on this tree (repaired); "
+                             f"the theorem remains a statement about the V_code variant of the model")
         for f2, desc in bad[:1]:
             ctx.violation("failing-input", thm, {"check": "lossless", "scenario": su.jsonable(scn), "observed": desc,
                                                  "theorem": thm, "broken": "property:C15-lossless"}, finding_id=f2)
@@ -315,6 +319,8 @@ def uninitialised_stream(ctx):
 
 def run(ctx):
     su.quiet()
+    ctx.notes.append(su.variant_note())
+    ctx.oblige("tie:variant-decided (" + su.variant_note() + ")", True)
     uninitialised_stream(ctx)
     tie_stream(ctx, "send_tensors: trace+result tie (checking transport)", gen_send, ctx.n(600, 4000), "sync_send")
     tie_stream(ctx, "sync_states: trace+result tie (checking transport)", gen_states, ctx.n(600, 4000), "sync_states")
